@@ -41,6 +41,7 @@ def masked_only(m, name):
 
 
 def check(stats, m, env, supplied, var, extra, sub="coordinates"):
+    m = safe(m)
     stats.case()
     vs = M.variables(m)
     point = {k: env[k] for k in supplied}
